@@ -112,8 +112,26 @@ theorem invW_clientTail {s : State} (hs : InvW s) (r : Option QErr) : InvW (clie
   | none => exact invW_detect hs _
   | some q => exact invW_detect (invW_detect hs _) _
 
+/-- `parked` is not mentioned by `InvW` -/
+theorem invW_unpark {s : State} (hs : InvW s) : InvW { s with parked := false } :=
+  ⟨hs.handled_cell, hs.handled_none, hs.tasks_cell, hs.drets_handled, hs.pc_handled⟩
+
+theorem invW_checkErr {s : State} (hs : InvW s) : InvW (checkErr s) := by
+  unfold checkErr
+  split
+  · rename_i h hh; exact invW_unpark (invW_retHandled hs hh)
+  · rename_i hn
+    split
+    · rename_i e hc; exact invW_unpark (invW_observe hs hn hc)
+    · exact hs
+
 theorem invW_dstep {s : State} (hs : InvW s) (rf : Bool) (op : DOp) : InvW (dstep rf s op) := by
   cases op with
+  | shut =>
+    simp only [dstep]
+    split
+    · exact invW_checkErr hs
+    · exact hs
   | bidi r =>
     simp only [dstep]
     split
@@ -223,6 +241,12 @@ theorem cell_dstep {s : State} {e : Err} (h : s.cell = some e) (rf : Bool) (op :
     (dstep rf s op).cell = some e := by
   cases op with
   | bidi r => simp only [dstep]; split <;> first | exact cell_clientTail h r | exact h
+  | shut =>
+    simp only [dstep]; split
+    · unfold checkErr; split
+      · exact h
+      · split <;> simp_all [observe]
+    · exact h
   | poll | pce | det _ | park =>
     simp only [dstep] <;> split <;>
       simp_all [pceFirst, pceSecond, detect, chk, reg, observe, retHandled] <;>
@@ -268,6 +292,10 @@ theorem handled_step {s : State} (hs : InvW s) {h : CErr} (hh : s.handled = some
   | drv op =>
     cases op with
     | bidi r => simp only [step, dstep]; split <;> first | exact handled_clientTail hh r | exact hh
+    | shut =>
+      simp only [step, dstep]; split
+      · unfold checkErr; rw [hh]; exact hh
+      · exact hh
     | poll | pce | det _ | park =>
       simp only [step, dstep] <;> split <;>
         simp_all [pceFirst, detect, retHandled]
@@ -315,6 +343,16 @@ theorem invT_dstep {s : State} (hs : InvT s) (op : DOp) : InvT (dstep true s op)
   have h2 := hs.waker_or_woken
   have h3 := hs.pending_wake
   cases op with
+  | shut =>
+    simp only [dstep]
+    split
+    · unfold checkErr
+      split
+      · exact invT_of_idle_not_parked (by simp [retHandled]) rfl
+      · split
+        · exact invT_of_idle_not_parked (by simp [observe]) rfl
+        · exact hs
+    · exact hs
   | bidi r =>
     simp only [dstep]
     split
@@ -492,6 +530,16 @@ theorem invP_step {s : State} (hw : InvW s) (hp : InvP s) (rf : Bool) (l : TaskI
     rw [this.1] at h; rw [this.2.1, this.2.2]; exact hp h
   | drv op =>
     cases op with
+    | shut =>
+      simp only [step, dstep]
+      split
+      · unfold checkErr
+        split
+        · intro h; simp at h
+        · split
+          · intro h; simp at h
+          · exact hp
+      · exact hp
     | bidi r =>
       simp only [step, dstep]
       split
